@@ -288,6 +288,30 @@ CONV_TREE = ["fromnode", "fill", "clone"]
 CONV_BIN = ["tonode 0", "tonode 1", "clone", "poolclone", "rebuf"]
 
 
+def doc_tags(v, depth=0, out=None):
+    """branch tags of the writer/reader a document reaches (reported in the evidence histogram)"""
+    out = set() if out is None else out
+    t = v[0]
+    if t == "i":
+        n = v[1]
+        w = ("u8" if n <= 255 else "u16" if n <= 65535 else "u32" if n < 2 ** 32 else "i64") if n >= 0 else (
+            "i8" if n >= -128 else "i16" if n >= -32768 else "i32" if n >= -2 ** 31 else "i64neg")
+        out.add("int:" + w)
+    elif t == "s":
+        out.add("str:len>127" if len(v[1]) > 127 else "str:short")
+    elif t in ("a", "o"):
+        kids = v[1] if t == "a" else [x for _, x in v[1]]
+        out.add("count:4byte" if len(kids) > 127 else "count:1byte")
+        out.add("depth>=%d" % (40 if depth >= 40 else 10 if depth >= 10 else 3 if depth >= 3 else 0))
+        if t == "o" and any(len(k) > 127 for k, _ in v[1]):
+            out.add("key:len>127")
+        for x in kids:
+            doc_tags(x, depth + 1, out)
+    else:
+        out.add("leaf:" + t)
+    return out
+
+
 def make_case(r, kind, doc, npt=6, extra_ptrs=(), chain_len=None, flagset=(0, 1)):
     ops = ["doc " + wire(doc)]
     form = "tree"
@@ -326,7 +350,9 @@ def make_case(r, kind, doc, npt=6, extra_ptrs=(), chain_len=None, flagset=(0, 1)
 
     def oracle(out, doc=doc, ops=ops, ptrmap=ptrmap, kind=kind):
         return check_case(doc, ops, out, ptrmap)
-    return Case(kind, ops, oracle)
+    c = Case(kind, ops, oracle)
+    c.key = (kind, tuple(ops), tuple(sorted(doc_tags(doc))))
+    return c
 
 
 def check_case(doc, ops, out, ptrmap):
@@ -682,6 +708,13 @@ def explore(ctx, h, drv, n, label, gens=GENS, with_model=True):
         ctx.sample(dict(kind=c.kind, ops=[o[:160] for o in c.ops[:6]]))
     probs = differential(ctx, [h], [drv, "c14"] if (drv and with_model) else None, cases, timeout=900)
     for c in cases:
+        if len(c.key) == 3:
+            for tg in c.key[2]:
+                ctx.hist("doc:" + tg)
+        for ln in (c.impl or []):
+            f = ln.split(" ", 3)
+            if len(f) == 4 and f[2] == "bin" and len(f[3]) >= 4:
+                ctx.hist("header:size-4byte" if int(f[3][2:4], 16) >= 128 else "header:size-1byte")
         for o in c.ops:
             ctx.hist("op:" + o.split()[0])
         for ln in (c.impl or []):
@@ -715,9 +748,9 @@ def run(ctx):
     ok, drv_ok = ctx.prove(MODULE, THEOREMS)
     h = build(ctx)
     drv = C.drv_path() if drv_ok else None
-    n = 5000 if ctx.tier == "quick" else 60000
+    n = 5000 if ctx.tier == "quick" else 200000
     explore(ctx, h, drv, n, "main")
-    explore(ctx, h, None, 400 if ctx.tier == "quick" else 5000, "text", gens=[(case_text, 1)], with_model=False)
+    explore(ctx, h, None, 400 if ctx.tier == "quick" else 15000, "text", gens=[(case_text, 1)], with_model=False)
     if ctx.proof_broken or ctx.corr_broken:
         ctx.log("obligation or correspondence broken: widening the search for a failing input")
         for i in range(3):
